@@ -188,7 +188,7 @@ class Ctx:
         for kid, (k, n) in sorted(hits.items()):
             print("KNOWN-FINDING: property=%s %s [%s, %d occurrence(s) this run]" %
                   (self.pid, k["what"], kid, n))
-        REPLAYS.mkdir(exist_ok=True)
+        REPLAYS.mkdir(parents=True, exist_ok=True)
         shown = {}
         for i, v in enumerate(new):
             # at most 2 replay files per site
@@ -210,7 +210,7 @@ class Ctx:
         return 1 if new else 0
 
     def write_evidence(self, nviol):
-        EVID.mkdir(exist_ok=True)
+        EVID.mkdir(parents=True, exist_ok=True)
         cov = {
             "states": int(self.states),
             "transitions": int(self.transitions),
